@@ -63,6 +63,7 @@ type c17World struct {
 	closed      bool
 	obs         []string
 	delCalls    map[string]int
+	deleted     []uint64 // private keys (>= 1000) deleted by a client
 }
 
 func (w *c17World) bad(f string, a ...any) {
@@ -154,7 +155,8 @@ func c17Exec(p *c17Params, prefix []int) *explore.Exec {
 					case "del":
 						name := fmt.Sprintf("%s.%d", who, oi)
 						key := uint64(arg)
-						w.c.Delete(0, key, func() {
+						existed := w.live[key] != nil && w.live[key].released == 0
+						delOK := w.c.Delete(0, key, func() {
 							w.delCalls[name]++
 							if w.delCalls[name] > 1 {
 								w.bad("delete callback %s ran %d times", name, w.delCalls[name])
@@ -166,6 +168,13 @@ func c17Exec(p *c17Params, prefix []int) *explore.Exec {
 							}
 						})
 						w.delCalls[name] += 0
+						// a key no other client touches (pre-loaded >= 1000): the answer is determined
+						if key >= 1000 {
+							if delOK != existed {
+								w.bad("%s: Delete(%d) = %v although the entry %s", who, key, delOK, map[bool]string{true: "exists", false: "does not exist"}[existed])
+							}
+							w.deleted = append(w.deleted, key)
+						}
 					case "evict":
 						w.c.Evict(0, uint64(arg))
 					case "evictns":
@@ -201,6 +210,7 @@ func c17Exec(p *c17Params, prefix []int) *explore.Exec {
 				w.bad("no handle is out but the cache retains charge %d > capacity %d", sz, cp)
 			}
 		}
+		// a deleted entry is gone once its handles are released: not retained, not handed out again
 		// release held handles, then close: everything constructed must be finalised exactly once
 		for _, hs := range held {
 			for _, h := range hs {
@@ -211,6 +221,11 @@ func c17Exec(p *c17Params, prefix []int) *explore.Exec {
 			}
 		}
 		if !w.closed {
+			for _, k := range w.deleted {
+				if lv := w.live[k]; lv != nil && lv.released == 0 {
+					w.bad("key %d was deleted and every handle released, but its value #%d is still alive in the cache", k, lv.id)
+				}
+			}
 			w.c.Close(false)
 		}
 		for name, n := range w.delCalls {
@@ -263,6 +278,9 @@ func c17Drivers() []c17Params {
 		{Name: "close-vs-get", Capacity: 1, PreKeys: []int{1}, Clients: [][]string{{"get:2"}, {"close"}}, QB: 3, TB: 5},
 		{Name: "forceclose-vs-hold", Capacity: 1, PreKeys: []int{1}, Clients: [][]string{{"hold:1", "get:2"}, {"closef"}}, QB: 3, TB: 5},
 		{Name: "grow-vs-ops", Capacity: 600, Preload: 511, Clients: [][]string{{"get:1"}, {"get:2", "del:1000"}, {"get:1"}}, QB: 2, TB: 3},
+		// Delete of a pinned entry while the map is being resized by the other clients' insertions
+		{Name: "grow-vs-delete-held", Capacity: 600, Preload: 511, Clients: [][]string{{"hold:1000", "del:1000"}, {"get:1"}, {"get:2"}}, QB: 2, TB: 3},
+		{Name: "grow-vs-delete", Capacity: 600, Preload: 510, Clients: [][]string{{"del:1000", "get:3"}, {"get:1", "get:2"}}, QB: 2, TB: 3},
 	}
 }
 
